@@ -232,6 +232,86 @@ def scan : Option Int → List Byte → List Arg → List Byte → Res (List (Li
 def fprintf (buf : List Byte) (format : List Byte) (args : List Arg) : Res (List (List Byte)) :=
   scan none format args buf
 
+/-! ## Index-level model of the `Fprintf` loop
+
+The same loop with the Go code's own bookkeeping: `blockStart`, `blockEnd`, `nextArgIndex` are
+indices, and every `format[i]` / `args[i]` is a **checked** access (out of range = `.panic`).
+`Proof/Kfmt.lean` proves `fprintfIdx = fprintf`, so every theorem about the list-traversal `scan`
+holds for this model too.  `fuel` arguments only make the recursions structural; the callers pass
+enough (`len(format)+1`, `len(format)+2`) and the `fuel = 0` branches are provably unreachable. -/
+
+/-- `for i := lo; i < hi; i++ { singleByte[0] = format[i]; doWrite(w, singleByte) }`, `n = hi - lo` -/
+def litLoop (fmt : List Byte) : Nat → Nat → Res (List (List Byte))
+  | 0, _ => .ok []
+  | n + 1, i =>
+    match getB fmt i with
+    | .panic => .panic
+    | .ok c => (litLoop fmt n (i + 1)).bind fun ws => .ok ([c] :: ws)
+
+/-- the `parseFmt:` loop `for ; blockEnd < fmtLen; blockEnd++ { switch … }`.  Returns `blockEnd`
+(at the `break`, or `fmtLen` when the loop ran off the end), `nextArgIndex`, the scratch buffer and
+the chunks written. -/
+def verbLoop (fmt : List Byte) (args : List Arg) :
+    Nat → Nat → Int → Nat → List Byte → Res (Nat × Nat × List Byte × List (List Byte))
+  | 0, be, _, na, buf => .ok (be, na, buf, [])
+  | fuel + 1, be, pad, na, buf =>
+    if be < fmt.length then
+      match getB fmt be with
+      | .panic => .panic
+      | .ok c =>
+        if c = 37 then .ok (be, na, buf, [[37]])
+        else if 48 ≤ c ∧ c ≤ 57 then
+          verbLoop fmt args fuel (be + 1) (wrap64 (wrap64 (pad * 10) + (c.toNat - 48 : Nat))) na buf
+        else if isVerb c then
+          if na ≥ args.length then .ok (be, na, buf, [errMissingArg])
+          else
+            match args[na]? with
+            | none => .panic
+            | some a =>
+              match fmtVerb buf c a pad with
+              | .panic => .panic
+              | .ok (buf, out) => .ok (be, na + 1, buf, out)
+        else
+          match verbLoop fmt args fuel (be + 1) pad na buf with
+          | .panic => .panic
+          | .ok (be', na', buf', ws) => .ok (be', na', buf', errNoVerb :: ws)
+    else .ok (be, na, buf, [])
+
+/-- the outer loop `for blockEnd < fmtLen { … }` followed by the trailing literal block and the
+`%!(EXTRA)` loop -/
+def mainLoop (fmt : List Byte) (args : List Arg) : Nat → Nat → Nat → Nat → List Byte → Res (List (List Byte))
+  | 0, _, _, _, _ => .ok []
+  | fuel + 1, bs, be, na, buf =>
+    if be < fmt.length then
+      match getB fmt be with
+      | .panic => .panic
+      | .ok c =>
+        if c ≠ 37 then mainLoop fmt args fuel bs (be + 1) na buf
+        else
+          -- `if blockStart < blockEnd { for i := blockStart; i < blockEnd; i++ … }`
+          match litLoop fmt (be - bs) bs with
+          | .panic => .panic
+          | .ok lits =>
+            -- `padLen = 0; blockEnd++; parseFmt: …`
+            match verbLoop fmt args (fmt.length + 1) (be + 1) 0 na buf with
+            | .panic => .panic
+            | .ok (be', na', buf', ws) =>
+              -- `blockStart, blockEnd = blockEnd+1, blockEnd+1`
+              match mainLoop fmt args fuel (be' + 1) (be' + 1) na' buf' with
+              | .panic => .panic
+              | .ok rest => .ok (lits ++ (ws ++ rest))
+    else
+      -- `if blockStart != blockEnd { for i := blockStart; i < blockEnd; i++ … }`
+      match (if bs ≠ be then litLoop fmt (be - bs) bs else .ok []) with
+      | .panic => .panic
+      | .ok lits =>
+        -- `for ; nextArgIndex < len(args); nextArgIndex++ { doWrite(w, errExtraArg) }`
+        .ok (lits ++ List.replicate (args.length - na) errExtraArg)
+
+/-- `Fprintf(w, format, args...)`, index level -/
+def fprintfIdx (buf : List Byte) (format : List Byte) (args : List Arg) : Res (List (List Byte)) :=
+  mainLoop format args (format.length + 2) 0 0 0 buf
+
 /-! ## Specification vocabulary (plain lists) -/
 
 /-- little-endian digit characters of `n` in base `base`; `fuel` ≥ number of digits − 1 -/
